@@ -40,6 +40,12 @@ theorem spikelessIds_eq_nanIdx (st sc : List Nat) (hlen : st.length = sc.length)
   · have h1 : ((C08.mergeMap st sc).getD c []).isEmpty = true := (h.2 ⟨by omega, hm⟩).2
     rw [h1]; simp [hm]
 
+/-- … stated on the model's `nan_idx` (`modelNanIdx`), for a CURATED, non-empty assignment (`_hne`: the domain, the real
+loader takes `max` of the ids; not needed by the proof) -/
+theorem blanked_ids_eq_nanIdx (st sc : List Nat) (hlen : st.length = sc.length) (hcur : sc ≠ st) (_hne : sc ≠ []) :
+    spikelessIds (sc.foldl max 0 + 1) sc = modelNanIdx st sc := by
+  rw [spikelessIds_eq_nanIdx st sc hlen, modelNanIdx, if_neg hcur]
+
 theorem exportClusterDepths_length (ys : List Rat) (peaks sc : List Nat) :
     (exportClusterDepths ys peaks sc).length = peaks.length := by
   simp [exportClusterDepths, clusterDepths]
